@@ -238,6 +238,31 @@ def _hs_group(part, rng, sis, exe, rundir):
         for kind, chunks in parts:
             lines.append(hx + " " + ",".join(str(c) for c in chunks))
             meta.append(("part", data, tail, kind, chunks, se))
+        # the same stream with the server connection driven by dbus_connection_read_write_dispatch (blocking-iteration
+        # path of the transport) instead of main-loop watches
+        lines.append("B " + hx + " -")
+        meta.append(("part", data, tail, "blocking-unsplit", None, se))
+        for kind, chunks in rng.sample(parts, min(6, len(parts))):
+            lines.append("B " + hx + " " + ",".join(str(c) for c in chunks))
+            meta.append(("part", data, tail, "blocking-" + kind, chunks, se))
+    # one stream per group with allocation failures enumerated around the handshake-to-message boundary: BEGIN, a
+    # message larger than one socket read (2048 bytes) and a second message, written in one piece / cut after AUTH
+    big = gen.rand_message(rng, maxdepth=1, mtype=4)
+    big["body_sig"], big["body"] = b"ay", [list(rng.getrandbits(8) for _ in range(rng.choice([2100, 3000, 5000])))]
+    big["fields"] = [(c, v) for c, v in big["fields"] if c != 8] + [(8, Variant(b"g", b"ay"))]
+    small = gen.rand_message(rng, maxdepth=1, mtype=1)
+    data = gen.encode(big) + gen.encode(small)
+    se = msgoracle.StreamExpect(data)
+    if se.terminal == "clean" and len(se.frames) == 2:
+        full = AUTH + data
+        la1 = AUTH.index(b"BEGIN")
+        lines.append(full.hex() + " -")
+        meta.append(("ref", data, "none", "unsplit", None, se))
+        for ci, chunks in ((0, None), (1, [la1, len(full) - la1]), (1, [la1, len(AUTH) - la1 + rng.choice([0, 1, 16, 700, 2048 - 7, 2500])])):
+            if chunks is not None and sum(chunks) < len(full):
+                chunks = chunks + [len(full) - sum(chunks)]
+            lines.append("O %d %s %s" % (ci, full.hex(), ",".join(str(c) for c in chunks) if chunks else "-"))
+            meta.append(("oom", data, "none", "oom-at-chunk-%d" % ci, chunks, se))
     res = hrun.run_cases(exe, lines, env={"VERIF_RUNDIR": rundir}, per_batch_timeout=900)
     ref = None
     for (what, data, tail, kind, chunks, se), rr in zip(meta, res):
@@ -252,6 +277,23 @@ def _hs_group(part, rng, sis, exe, rundir):
             part.violation("%s:%s:%s" % (PROP, cls[0], cls[1]), "server connection crashed", dict(wit, stderr=c.get("stderr", "")[-2000:]))
             continue
         part.sig("hs", len(se.frames), se.terminal, kind)
+        if what == "oom":
+            part.count("hs-oom-cases")
+            part.count("hs-oom-runs", rr.get("runs", 0))
+            part.count("hs-oom-faults-fired", rr.get("fired", 0))
+            # a failing allocation while the credentials byte / the SASL lines are handled may make the server give the
+            # connection up before it is authenticated (not a matter of this property): counted, not judged
+            part.count("hs-oom-connection-dropped-during-handshake(not judged)", rr.get("dropped_in_handshake", 0))
+            for bad in rr.get("bad", []):
+                o = bad["out"]
+                part.violation("%s:hs-oom-changes-stream:%s" % (PROP, "lost-or-corrupt" if len(o["msgs"]) < len(rr["ref"]["msgs"]) else "differs"),
+                               "blocking iteration: with allocation %d (burst of %d) failing while chunk %s is processed the server "
+                               "receives %d message(s), connected=%s; without fault %d, connected=%s"
+                               % (bad["k"], bad["nf"], kind[-1], len(o["msgs"]), o["connected"], len(rr["ref"]["msgs"]), rr["ref"]["connected"]),
+                               dict(wit, k=bad["k"], nfail=bad["nf"]))
+                break
+            rr = rr["ref"]
+            what = "part"
         if what == "ref":
             ref = rr
             if rr["auth"] != 1:
@@ -281,6 +323,8 @@ def _hs_group(part, rng, sis, exe, rundir):
             part.violation("%s:hs-state-differs" % PROP, "auth/connected %s vs unsplit %s" % ((rr["auth"], rr["connected"]), (ref["auth"], ref["connected"])), wit)
         else:
             part.count("hs-partitions-compared")
+            if kind.startswith("blocking") or kind.startswith("oom"):
+                part.count("hs-blocking-partitions-compared")
 
 
 def run(tier, seed, replay=None, scale=1.0):
@@ -331,6 +375,8 @@ def run(tier, seed, replay=None, scale=1.0):
         shutil.rmtree(rundir, ignore_errors=True)
     r.require("partitions-compared", 100 if scale >= 1 else 1)
     r.require("hs-partitions-compared", 50 if scale >= 1 else 1)
+    r.require("hs-blocking-partitions-compared", 50 if scale >= 1 else 1)
+    r.require("hs-oom-faults-fired", 200 if scale >= 1 else 1)
     r.require("daemon-fd-streams", 50 if scale >= 1 else 1)
     r.assumptions = ["read boundaries equal chunk boundaries because the server loop runs to idle after every write (handshake mode)",
                      "oracle framing = vf/wire.py"]
